@@ -1242,6 +1242,22 @@ func (r *vcRun) exec(line string) {
 		r.emit(line, strconv.Itoa(r.a.c.Count()))
 	case "slice":
 		r.emit(line, r.a.slice())
+		// the slice belongs to the caller: editing it in place (filtering, clearing) leaves the collection as it was
+		before := r.a.fingerprint()
+		got := r.a.c.ToSlice()
+		full := got[:len(got):len(got)]
+		orig := append([]*Descriptor(nil), full...)
+		for i := range full {
+			full[i] = nil
+		}
+		after, pnc := func() (s string, p any) {
+			defer func() { p = recover() }()
+			return r.a.fingerprint(), nil
+		}()
+		copy(full, orig) // (if the slice was the collection's own list, put it back: the run goes on)
+		if pnc != nil || after != before {
+			r.fail("C17", fmt.Sprintf("editing the slice returned by ToSlice changed the collection (panic %v): before {%s} after {%s}", pnc, before, after))
+		}
 	case "build":
 		r.execBuild(line, num(2))
 	case "pget":
@@ -1437,6 +1453,37 @@ func (r *vcRun) checkModuleReuse(trees []*vcTree) {
 	e2, s2 := apply(mods...)
 	if e1 != e2 || s1 != s2 {
 		r.fail("C20,C17", fmt.Sprintf("the same module values applied to a second fresh collection: first %s {%s}, second %s {%s}", e1, s1, e2, s2))
+		return
+	}
+	// the same collection again: apply, take everything out again with Remove/RemoveKeyed, apply again - once with ONE
+	// module value for both applications, once with two equal values; the module value carries no memory of the first
+	protocol := func(first, second []ModuleOption) (string, string) {
+		c := NewCollection()
+		safely(func() error { return c.AddModules(first...) })
+		for _, d := range c.ToSlice() {
+			if d == nil {
+				continue
+			}
+			if d.Key != nil {
+				c.RemoveKeyed(d.Type, d.Key)
+			} else {
+				c.Remove(d.Type)
+			}
+		}
+		e, p := safely(func() error { return c.AddModules(second...) })
+		if p != nil {
+			return fmt.Sprintf("panic: %v", p), ""
+		}
+		return vcErrChain(e), vcSummary(c)
+	}
+	var fresh []ModuleOption
+	for _, t := range trees {
+		fresh = append(fresh, r.plainModule(tmp, t))
+	}
+	ea, sa := protocol(mods, mods)
+	eb, sb := protocol(mods, fresh)
+	if ea != eb || sa != sb {
+		r.fail("C20,C17", fmt.Sprintf("apply / remove everything / apply again on one collection: with the same module value twice %s {%s}, with an equal second value %s {%s}", ea, sa, eb, sb))
 		return
 	}
 	// two goroutines apply one module value at the same time (each to its own collection): a gate inside the
